@@ -73,7 +73,8 @@ def families():
                 n1=(5, 5), selftest=True, timeout=300))
     # --- C02: safety under interleavings
     for fl, tag in (("Optimistic", "opt"), ("Pessimistic", "pess")):
-        qs.append(Q("safe_alloc_vs_dealloc_%s_sw2_a" % tag, ["C02"], "quick" if tag == "opt" else "thorough", "safe", fl, "S_H", ALLOC, DEALLOC, [22, 14], 2, 1))
+        # (the shape alloc^a dealloc* alloc* is covered by the 3-switch family: in it the dealloc may have to wait for the
+        #  interrupted alloc, so its middle chunk cannot be required to run to completion)
         qs.append(Q("safe_alloc_vs_dealloc_%s_sw2_d" % tag, ["C02"], "quick" if tag == "opt" else "thorough", "safe", fl, "S_H", ALLOC, DEALLOC, [22, 14], 2, 2))
         qs.append(Q("safe_alloc_vs_alloc_%s_sw2" % tag, ["C02"], "thorough", "safe", fl, "S_2", ALLOC, ALLOC, [24, 24], 2, 1, n1=(1, 16)))
         qs.append(Q("safe_alloc_vs_dealloc_%s_sw3" % tag, ["C02"], "thorough", "safe", fl, "S_H", ALLOC, DEALLOC, [24, 16], 3, 1, timeout=1800))
@@ -82,7 +83,6 @@ def families():
     qs.append(Q("safe_bump_vs_toprelease_opt_sw3", ["C02"], "thorough", "safe", "Optimistic", "S_E", ALLOC_FREE, DEALLOC_ALLOC, [16, 18], 3, 2, n1=(1, 24), timeout=1800))
     # --- C07: no operation waits for ever
     qs.append(Q("live_alloc_vs_dealloc_opt_sw2_d", ["C07"], "quick", "live", "Optimistic", "S_HN", ALLOC, DEALLOC, [22, 14], 2, 2, n1=(1, 8), role="waiter_after_pop"))
-    qs.append(Q("live_alloc_vs_dealloc_opt_sw2_a", ["C07"], "quick", "live", "Optimistic", "S_HN", ALLOC, DEALLOC, [22, 14], 2, 1, n1=(1, 8)))
     qs.append(Q("live_alloc_vs_dealloc_opt_sw3", ["C07"], "thorough", "live", "Optimistic", "S_HN", ALLOC, DEALLOC, [24, 16], 3, 1, n1=(1, 8), role="waiter_after_pop", timeout=2400))
     qs.append(Q("live_alloc_vs_dealloc_pess_sw3", ["C07"], "thorough", "live", "Pessimistic", "S_HN", ALLOC, DEALLOC, [24, 16], 3, 1, n1=(1, 8), role="waiter_after_pop"))
     qs.append(Q("live_alloc_vs_dealloc_opt_sw3_d", ["C07"], "thorough", "live", "Optimistic", "S_HN", ALLOC, DEALLOC, [24, 16], 3, 2, n1=(1, 8)))
